@@ -358,7 +358,8 @@ def size_like(F, owner, e, depth=0):
     if k == "Lit":
         v = lit_int(e.get("lit"))
         return "literal %s" % v if v is not None and 0 <= v < 1 << 16 else None
-    if k == "MethodCall" and e["method"] in ("len", "count"):
+    if k == "MethodCall" and e["method"] in ("len", "count") and (e.get("callee") or "").startswith(("std::", "core::", "alloc::")) \
+            and not (e.get("recv_ty") or "").replace("&mut ", "").replace("&", "").lstrip().startswith("wasmparser::"):
         return "length of an in-memory collection"
     if k == "Path" and e.get("res", {}).get("r") == "local":
         hid = e["res"]["hid"]
@@ -850,4 +851,44 @@ def nopanic(F, roots=None, rule="R-NOPANIC", title=None, prop_label="parse"):
                 prop_label, kind, snip, " → ".join(x.split("::")[-1] for x in mirutil.call_path(parent, p))))
     r.count("panic_sites", n_sites)
     r.count("debug_only_overflow_checks", dbg)
+    return r
+
+
+def untrusted_alloc(F):
+    """R-UNTRUSTED-ALLOC (zero expected): on the parse call graph no allocation is sized by a number read from the input.
+    `Vec::with_capacity(n)`, `reserve(n)`, `resize(n, ..)`, `vec![x; n]` abort the process when `n` is absurd (a section
+    header may declare 2^32 items in a five-byte section); sizes that count items already held in memory (`len()`, an
+    enumerate index, a small literal — `size_like`) are fine.  An abort is not a panic edge in MIR, hence this HIR rule."""
+    r = RuleResult("R-UNTRUSTED-ALLOC",
+                   "no Vec/String/HashMap capacity on the parse call graph is taken from a value that does not count in-memory items (e.g. a section reader's declared count)")
+    roots = [f["path"] for f in F.fns if f["name"] in ("parse", "parse_internal", "parse_comp") and (f.get("self_adt") or "").endswith(("::Module", "::Component"))]
+    g = mirutil.build_callgraph(F)
+    seen, _parent = mirutil.reachable_fns(F, roots, g)
+    SIZED = {"with_capacity": 0, "reserve": 0, "reserve_exact": 0, "resize": 0, "resize_with": 0, "from_elem": 1, "with_capacity_and_hasher": 0}
+    n = 0
+    for p in sorted(seen):
+        fn = F.by_path[p][0]
+        body, owner = _hir_body(F, fn) if fn.get("kind") != "Closure" else (None, None)
+        if body is None or owner is None or owner is not fn:
+            continue
+        for c in walk(body):
+            if c.get("k") not in ("Call", "MethodCall"):
+                continue
+            nm = (c.get("callee") or "").split("::")[-1]
+            if nm not in SIZED or not (c.get("callee") or "").startswith(("std::", "alloc::", "core::", "hashbrown::")):
+                continue
+            args = c.get("args", [])
+            i_ = SIZED[nm]
+            if i_ >= len(args):
+                continue
+            n += 1
+            why = size_like(F, owner, args[i_])
+            r.ob(why is not None, {"fn": p, "call": nm, "size": why or "not a count of in-memory items"})
+            if why is None:
+                r.violate("%s | %s sized by input" % (p, nm), F.loc(fn, c),
+                          "`%s(..)` on the parse path is sized by a value that does not count items already in memory (e.g. the item count a section header declares): a tiny malformed input can request gigabytes and abort the process instead of returning an error" % nm)
+        r.analysed.append(p)
+    r.count("sized_allocations", n)
+    r.obligations = max(r.obligations, 1)
+    r.discharged = max(r.discharged, 1) if not r.violations else r.discharged
     return r
